@@ -68,6 +68,17 @@ contract(
         f"  and _x_hash_entry.action == ('verified' if _x_existing_hash_entry.hash_string == hash_string else 'failed'))",
         "action is None or _x_hash_entry.action == action",
         "result == (_x_hash_entry.action != 'failed')",
+        # a session on a history without nested histories (e.g. the collection of `flatten`) records into that history,
+        # and a relative path is taken as it is
+        "len(self.root_history.child_histories) > 0 or _x_history == self.root_history",
+        "p_isabs(file_path) or _x_history_relative_path == file_path",
+        "len(_x_media_hash.hash_entries) == old(len(_x_media_hash.hash_entries)) + 1 or fresh(_x_media_hash)",
+        f"{H} in self.new_hash_lists",
+        # the record of the path: the one that was there (its other entries untouched), or a new one holding just this entry
+        "fresh(_x_media_hash) or _x_media_hash.hash_entries == old(_x_media_hash.hash_entries) + [_x_hash_entry]",
+        f"not ({H} in old(self.new_hash_lists)) or old(self.new_hash_lists[{H}].media_hashes_path_map.get({P})) is None"
+        f" or _x_media_hash == old(self.new_hash_lists[{H}].media_hashes_path_map.get({P}))",
+        f"not ({H} in old(self.new_hash_lists) and old(self.new_hash_lists[{H}].media_hashes_path_map.get({P})) is not None) or not fresh(_x_media_hash)",
     ],
     logs=True,
     props=["C04", "C18"],
